@@ -13,7 +13,7 @@ import subprocess
 import sys
 
 V = os.path.dirname(os.path.dirname(os.path.abspath(__file__)))
-WT = "/tmp/verif-confirm-wt"
+WT = os.environ.get("VERIF_CONFIRM_WT", "/tmp/verif-confirm-wt")
 ENV = dict(os.environ, GOFLAGS="-mod=mod", GOPROXY="off")
 ENV.pop("GOTOOLCHAIN", None)
 
